@@ -1447,7 +1447,8 @@ class C03(Property):
         if obs.get('deadlock'):
             return Failure('deadlock', 'all threads blocked (schedule %r)' % (case['sched'],))
         if obs.get('step_limit'):
-            return Failure('livelock', 'run exceeded the step limit')
+            return Failure('livelock', 'the run exceeded the limit of 60000 scheduling points: under this schedule an '
+                           'operation does not terminate (results so far %r)' % (obs.get('results'),))
         if 'unusable' in obs:
             return Failure('unusable', 'cache unusable after the run: %s' % obs['unusable'])
         if obs['len'] > case['max'] or 'OVER' in obs['order']:
